@@ -122,6 +122,10 @@ struct FnSpec {
     block_call_from: String,
     #[serde(default)]
     block_call: String,
+    /// R15 call-outs for single statements: a (possibly nested) statement whose text starts with the key is replaced
+    /// by the value (a call of its lifted twin, verified from the same bytes); every key must match exactly once
+    #[serde(default)]
+    stmt_calls: BTreeMap<String, String>,
 }
 
 #[derive(Deserialize, Clone)]
@@ -530,6 +534,7 @@ struct Rw<'a> {
     quote_idx: usize,
     pre_items: String,
     block_call_done: bool,
+    stmt_calls_done: HashMap<String, usize>,
 }
 
 impl<'a> Rw<'a> {
@@ -1346,6 +1351,19 @@ impl<'a, 'ast> Visit<'ast> for Rw<'a> {
         });
     }
 
+    fn visit_stmt(&mut self, st: &'ast syn::Stmt) {
+        if !self.spec.stmt_calls.is_empty() {
+            let (ss, se) = br(st.span());
+            let hit = self.spec.stmt_calls.iter().find(|(k, _)| self.src[ss..].starts_with(k.as_str())).map(|(k, v)| (k.clone(), v.clone()));
+            if let Some((k, v)) = hit {
+                self.replace_range(ss, se, v, "R15-call-out");
+                *self.stmt_calls_done.entry(k).or_insert(0) += 1;
+                return;
+            }
+        }
+        syn::visit::visit_stmt(self, st);
+    }
+
     fn visit_block(&mut self, b: &'ast syn::Block) {
         if !self.spec.block_call_from.is_empty() && !self.block_call_done {
             if let Some(st) = b.stmts.first() {
@@ -1976,6 +1994,7 @@ fn extract_fn(
         quote_idx: 0,
         pre_items: String::new(),
         block_call_done: false,
+        stmt_calls_done: HashMap::new(),
     };
     let (_, wend) = br(whole);
     let (sig_s, sig_e) = br(sig.span());
@@ -2151,6 +2170,11 @@ fn extract_fn(
                 }
             } else {
                 rw.visit_stmt(st);
+            }
+        }
+        for k in spec.stmt_calls.keys() {
+            if rw.stmt_calls_done.get(k).copied().unwrap_or(0) != 1 {
+                rw.errors.push(format!("lost anchor: statement `{}` of {} matched {} times", k, item_label, rw.stmt_calls_done.get(k).copied().unwrap_or(0)));
             }
         }
         if !spec.block_call_from.is_empty() && !rw.block_call_done {
